@@ -20,7 +20,7 @@ VARIABLE l
 Skis == {"r1", "r2"}
 
 Has(out, s) == \E j \in 1..Len(out) : out[j] = s
-PreSvc(run, i, k) == IF i = 1 THEN [trusted |-> FALSE, dstate |-> "None", derr |-> FALSE, reg |-> 0, cnt |-> -1] ELSE run.steps[i - 1].svc[k]
+PreSvc(run, i, k) == IF i = 1 THEN [trusted |-> FALSE, paired |-> FALSE, dstate |-> "None", derr |-> FALSE, reg |-> 0, cnt |-> -1] ELSE run.steps[i - 1].svc[k]
 
 \* ghost facts derived from the actions alone
 NewConnSteps(run) == SelectSeq([i \in 1..Len(run.steps) |-> i], LAMBDA i : run.steps[i].a.a \in {"NewConn", "ClosedRe"})
@@ -72,7 +72,7 @@ JudgeStep(run, i) ==
         b7 == IF a.a = "ClosedRe" /\ s.svc[a.k].reg = 0 THEN {<<"C11", "newer-registry-entry-dropped", "during-the-disconnect-notification">>} ELSE {}
         \* C01 at the hub: whatever happened, the hub calls a service trusted (and answers its connections 'paired') only while
         \* the user's last word for it is Register, or trust was earned in a handshake after that
-        b6 == {<<"C01", "hub-trusts-a-service-without-the-users-word", k, a.a>> : k \in {k \in Skis : s.svc[k].trusted /\ ~Intent(run, i + 1, k)}}
+        b6 == {<<"C01", "hub-trusts-a-service-without-the-users-word", k, a.a>> : k \in {k \in Skis : (s.svc[k].trusted \/ s.svc[k].paired) /\ ~Intent(run, i + 1, k)}}
     IN  b1 \cup b2 \cup b3 \cup b4 \cup b5 \cup b6 \cup b7
 
 \* the last set-up / disconnect notification of k in the whole run: "Setup", "Disconnected" or "none"
